@@ -239,6 +239,17 @@ func opLayout(c *Case) map[string]any {
 	}
 	// inputs untouched?
 	obs["inputmod"] = !reflect.DeepEqual([][]string(src), c.Edges) || !reflect.DeepEqual(szb, sza)
+	// a monitor must not change the result: same call with the monitor toggled
+	if _, ok := c.Arg["montoggle"]; ok {
+		r2, _, _, _ := oneLayout(c, false, !c.Cfg.Mon)
+		if r2.panicked {
+			obs["mon_same"] = false
+		} else {
+			a, _ := json.Marshal(serLayout(r.out))
+			b, _ := json.Marshal(serLayout(r2.out))
+			obs["mon_same"] = string(a) == string(b)
+		}
+	}
 	reps := 0
 	if v, ok := c.Arg["repeat"].(float64); ok {
 		reps = int(v)
